@@ -257,9 +257,14 @@ class Ctx:
         return accepted, r.hwm, r
 
     # ----------------------------------------------------------------- Go side
-    def goenv(self):
+    def goenv(self, gen=False):
+        """Environment of go commands.  gen=True: for builds of code generated into the scratch directory - their package
+        paths are new on every run, so their build cache entries would pile up in the user's go build cache for ever
+        (hundreds of MB per run); they get a cache of their own inside the scratch directory, removed with it."""
         env = dict(os.environ, GOFLAGS="-mod=mod", GOPROXY="off", GOSUMDB="off", GOTOOLCHAIN="local",
                    CGO_ENABLED=os.environ.get("CGO_ENABLED", "1"))
+        if gen:
+            env["GOCACHE"] = os.path.join(self.scratch, "gocache")
         return env
 
     def modfile(self):
